@@ -302,7 +302,8 @@ func (r *testResults) report(printer internal.Printer) bool {
 	if expectedFailures > 0 {
 		printer.Printf("(Another %d failed as expected due to being known failures/flakes.)", expectedFailures)
 	}
-	return failed == 0
+	// Cases that could not be run were never executed, so they count against success too.
+	return failed == 0 && couldNotRun == 0
 }
 
 type testOutcome struct {
